@@ -455,7 +455,7 @@ prop('C18', units=['frost_secp256k1_tr'],
                 'script root; post_dkg returns the key-path-only tweak (thm_tr_dkg_key_path_only); verification under the UNTWEAKED key holds iff e*ev(Q) == e\'*ev(P) (thm_tr_untweaked_key_iff).',
      level_note='ASSUMED about k256/sha2/subtle (K1-K12, prelude/k256_model.rs): operators are the field/group operations; to_affine/x/y_is_odd are functions of the point; -P keeps x and (P != 0) flips the '
                 'parity of y; a point != 0 is determined by x and the parity of y; x is 32 bytes; SEC1 compressed encoding = 02/03 by parity || x; Sha256 is a deterministic streaming hash; '
-                'Scalar::reduce(U256::from_be_slice(b)) is a function of b.  T3/T4 for k256: 35 external_body proof fns in the impl Field / impl Group blocks (contracts_tr/tr_model.vc).  T6 addenda: a '
+                'Scalar::reduce(U256::from_be_slice(b)) is a function of b.  T3/T4 for k256: 33 external_body proof fns in the impl Field / impl Group blocks (contracts_tr/tr_model.vc).  T6 addenda: a '
                 'BTreeMap is determined by its view (needed because hooks.vc states pre_aggregate/post_dkg results as equations); AsRef<[u8]> for &[u8] is the identity.  One definitional axiom '
                 '(tr_rnz).  NOT decided: independent verifiers (libsecp256k1, Python) are replaced by the transcribed BIP-340 Verify; "does not verify under the untweaked key" is reduced to a '
                 'relation between two hash outputs, not excluded; BIP-341 rejects t >= n where the code reduces mod n (probability < 2^-127); SigningKey::into_even_y (assumed: it panics on the zero key and Verus allows no precondition on a trait-impl method), H1/H3/H4/H5/HDKG/HID, '
